@@ -57,8 +57,20 @@ def gen(ch, tier):
         # dense overlap: the candidate set is nearly the full product and crosses the 10000 / 15000 / 22500
         # buffer-growth boundaries of the candidate enumeration
         shape = ch.choice([(4, 4, 12), (3, 3, 24), (5, 5, 7), (4, 4, 13)])
-        return ac.gen_align_case(ch, min_annot=shape[0], max_annot=shape[1], max_units=shape[2], max_total=120,
+        case = ac.gen_align_case(ch, min_annot=shape[0], max_annot=shape[1], max_units=shape[2], max_total=120,
                                  max_candidates=120000, families=[("dense", 1)])
+        if ch.coin(0.5):
+            # ... and several such alignments computed CONCURRENTLY in the pool with one shared dissimilarity
+            # (shuffled samples of a dense continuum are dense too: each job has 10000+ candidates)
+            g = ch.sub("gamma")
+            case["gamma"] = {"sampler": "shuffle_float", "mode": "exact", "n_samples": g.randint(2, 3),
+                             "np_seed": g.randint(0, 2**31 - 1)}
+            case["schedule"] = {"workers": g.choice([2, 3, 4]),
+                                "policy": {"policy": "random", "seed": g.randint(0, 2**31 - 1),
+                                           "p_line": g.choice([0.02, 0.05, 0.2]), "p_coarse": 0.6, "main_scale": 0.0},
+                                "trace_lines": True}
+            case["faults"] = {"mode": "none", "fail": None}
+        return case
     shape = ch.choice([(2, 5, 6), (2, 5, 6), (2, 2, 30), (3, 3, 12), (4, 4, 7), (5, 5, 5), (2, 4, 3)])
     case = ac.gen_align_case(ch, min_annot=shape[0], max_annot=shape[1], max_units=shape[2], max_total=90,
                              max_candidates=40000, allow_none_label=ch.coin(0.3))
